@@ -36,7 +36,13 @@ type c03Cfg struct {
 	Presend bool `json:"presend,omitempty"`
 	// TLS: the session runs inside STARTTLS (real crypto/tls handshake on the in-memory connection)
 	TLS bool `json:"tls,omitempty"`
+	// API: how the batch is handed over — 0 DialWithContext + Send + Close; 1 DialAndSend; 2 DialToSMTPClientWithContext +
+	// SendWithSMTPClient + CloseWithSMTPClient (a connection the Client does not keep); 3 = as 2 while the Client
+	// additionally keeps a connection of its own (dialled before, idle)
+	API int `json:"api,omitempty"`
 }
+
+var c03APINames = []string{"Dial+Send+Close", "DialAndSend", "DialToSMTPClient+SendWithSMTPClient", "SendWithSMTPClient beside the Client's own connection"}
 
 type c03Case struct {
 	Cfg    c03Cfg `json:"cfg"`
@@ -269,7 +275,14 @@ func c03Exec(r *vf.Run, cfg c03Cfg, c *vf.Chooser) (keys, whats []string) {
 	conn2 := refsmtp.NewConn(sess2)
 	sess0 := &refsmtp.Session{Host: hx.Host, Caps: []string{"8BITMIME", "ENHANCEDSTATUSCODES"}}
 	conn0 := refsmtp.NewConn(sess0)
+	connOwn := refsmtp.NewConn(&refsmtp.Session{Host: hx.Host, Caps: []string{"8BITMIME"}})
 	rig := &hx.Rig{Mk: func(n int) *refsmtp.Conn {
+		if cfg.API == 3 {
+			if n == 0 {
+				return connOwn
+			}
+			n--
+		}
 		if cfg.Presend {
 			if n == 0 {
 				return conn0
@@ -320,6 +333,35 @@ func c03Exec(r *vf.Run, cfg c03Cfg, c *vf.Chooser) (keys, whats []string) {
 		}
 	}
 	pan, pw := vf.Guard(func() {
+		switch cfg.API {
+		case 1:
+			_ = cl.DialAndSend(msgs...)
+			return
+		case 2, 3:
+			if cfg.API == 3 {
+				if err := cl.DialWithContext(context.Background()); err != nil {
+					r.HarnessError("C03 dial of the Client's own connection failed: %v", err)
+					return
+				}
+			}
+			sc, err := cl.DialToSMTPClientWithContext(context.Background())
+			if err != nil {
+				r.HarnessError("C03 dial failed: %v", err)
+				return
+			}
+			_ = cl.SendWithSMTPClient(sc, msgs...)
+			_ = cl.CloseWithSMTPClient(sc)
+			if cfg.API == 3 {
+				// the Client's own connection must have survived whatever happened on the other one
+				if err := cl.Reset(); err != nil {
+					add("own-connection-lost/api="+c03APINames[cfg.API], fmt.Sprintf("after SendWithSMTPClient on another connection the Client's own idle connection does not work any more: %v", err))
+				} else {
+					r.Outcome("reached/own-connection-alive-after-foreign-send")
+				}
+				_ = cl.Close()
+			}
+			return
+		}
 		if err := cl.DialWithContext(context.Background()); err != nil {
 			r.HarnessError("C03 dial failed: %v", err)
 			return
@@ -580,7 +622,7 @@ func init() {
 	vf.Register(&vf.Check{
 		ID: "C03", Title: "only complete messages are committed; IsDelivered tells the truth",
 		Run: func(r *vf.Run) {
-			r.SetRule("batches of 1..3 messages over shapes {single, alternative, body+attachment, body+embed, body+attachment from a reader, body+embed from a read-seeker, single 8bit body, 8bit body + 8bit alternative + 7bit attachment}; (history) the same Msg objects delivered once over a fault-free connection BEFORE the judged Send; (history) the same Msg objects sent again over a fault-free connection, unchanged or after all their recipients were removed (second attempt refused before MAIL FROM); choice points: every content producer {ok, fail before first byte, fail after half — with a generic error, with io.EOF, with a wrapped io.EOF, with an error whose text reads like a 4yz / 5yz reply}, S/MIME signing of single-part messages {off, fails at render time before the first byte}, transport failure in each DATA phase at {never, first content byte, inside headers, inside a part body, just before the end, inside the end-of-data marker, inside the content of the last part}, server reply at NOOP/MAIL/RCPT/DATA/RSET {ok,4yz,5yz,drop,multi-line ok,421+disconnect} and at end-of-data {250,4yz,5yz,drop,251,multi-line 250}; all vectors with <= k deviations; oracle: server commit log vs. reference rendering of the same Msg objects; plus the same batches inside a STARTTLS session (transport faults are not offered there); plus two goroutines calling Send on one established connection, every interleaving up to 2 preemptions (scheduler of C13), same oracle; distinct by (configuration, choice vector)")
+			r.SetRule("batches of 1..3 messages over shapes {single, alternative, body+attachment, body+embed, body+attachment from a reader, body+embed from a read-seeker, single 8bit body, 8bit body + 8bit alternative + 7bit attachment}; (history) the same Msg objects delivered once over a fault-free connection BEFORE the judged Send; (history) the same Msg objects sent again over a fault-free connection, unchanged or after all their recipients were removed (second attempt refused before MAIL FROM); choice points: every content producer {ok, fail before first byte, fail after half — with a generic error, with io.EOF, with a wrapped io.EOF, with an error whose text reads like a 4yz / 5yz reply}, S/MIME signing of single-part messages {off, fails at render time before the first byte}, transport failure in each DATA phase at {never, first content byte, inside headers, inside a part body, just before the end, inside the end-of-data marker, inside the content of the last part}, server reply at NOOP/MAIL/RCPT/DATA/RSET {ok,4yz,5yz,drop,multi-line ok,421+disconnect} and at end-of-data {250,4yz,5yz,drop,251,multi-line 250}; all vectors with <= k deviations; oracle: server commit log vs. reference rendering of the same Msg objects; plus the same batches inside a STARTTLS session (transport faults are not offered there); plus two goroutines calling Send on one established connection, every interleaving up to 2 preemptions (scheduler of C13), same oracle; distinct by (configuration, choice vector); the batch handed over in 4 ways (Dial+Send+Close, DialAndSend, SendWithSMTPClient on a connection the Client does not keep, the same beside an idle connection of the Client that has to survive)")
 			r.Assume("the reference rendering is WriteTo on the same Msg after Send with faults disabled (default file encodings; repeatability itself is C11)",
 				"the transport's final CRLF after content that does not end in CRLF is not part of the message")
 			type job struct {
@@ -620,6 +662,9 @@ func init() {
 				jobs = append(jobs, job{c03Cfg{M: 2, Rot: rot, Resend: true, ResendNoRcpt: true}, 1})
 				jobs = append(jobs, job{c03Cfg{M: 2, Rot: rot, Presend: true}, b}, job{c03Cfg{M: 3, Rot: rot, Presend: true}, 1})
 				jobs = append(jobs, job{c03Cfg{M: 2, Rot: rot, TLS: true}, 1}, job{c03Cfg{M: 1, Rot: rot, TLS: true}, b})
+				for api := 1; api <= 3; api++ {
+					jobs = append(jobs, job{c03Cfg{M: 2, Rot: rot, API: api}, b}, job{c03Cfg{M: 1, Rot: rot, API: api, NoOp: true}, b}, job{c03Cfg{M: 2, Rot: rot, API: api, Resend: api == 1}, 1})
+				}
 			}
 			if !r.Thorough {
 				// quick still covers batches of 3 at bound 1
@@ -692,7 +737,7 @@ func init() {
 					}
 				})
 			}
-			r.Reached("reached/concurrent-senders")
+			r.Reached("reached/concurrent-senders", "reached/own-connection-alive-after-foreign-send")
 			r.Reached("reached/transport-failure-class-1", "reached/transport-failure-class-2", "reached/transport-failure-class-3", "reached/transport-failure-class-4", "reached/transport-failure-class-5", "reached/transport-failure-class-6",
 				"reached/signing-failure", "reached/producer-failure", "reached/commit", "reached/resend-committed-all", "reached/resend-after-transport-failure", "reached/resend-refused-locally", "reached/delivered-before-the-judged-send")
 		},
